@@ -77,6 +77,21 @@ pub fn gen_c15(seed: u64, thorough: bool) -> Plan {
         serde_json::json!({ "link_cut": { "quic_at_ms": at } })
     } else if link_cut {
         serde_json::json!({ "link_cut": { "dir": if g.chance(50) { "c2s" } else { "s2c" }, "offset": g.range(0, 3000) } })
+    } else if g.chance(25) {
+        // next to the flows, one to three applications leave a local handshake unfinished (and close, or just stay): their
+        // sockets and tasks are released as well - at the client's handshake deadline at the latest
+        let n = g.range(1, 3);
+        let list: Vec<(Vec<u8>, bool)> = (0..n)
+            .map(|_| {
+                let bytes: Vec<u8> = g.pick(&[
+                    vec![], vec![5u8], vec![5, 1], vec![5, 1, 0, 5, 1, 0, 1, 127], vec![5, 1, 0, 5, 1, 0, 3, 40, b'a', b'b'],
+                    b"GET http://exa".to_vec(), b"GET http://example.com/ind".to_vec(), b"CONNECT a.b:1 HTTP/1.1\r\nHost: a.b".to_vec(), b"POST http://h.test/x HTTP/1.1\r\nHost: h.test\r\nContent-Le".to_vec(),
+                    vec![0x16, 0x03, 0x01, 0x02, 0x00, 0x01, 0x00, 0x01, 0xfc, 0x03, 0x03, 0x11, 0x22],
+                ]).clone();
+                (bytes, g.chance(60))
+            })
+            .collect();
+        serde_json::json!({ "abandoned_handshakes": list })
     } else {
         serde_json::Value::Null
     };
@@ -119,7 +134,9 @@ pub fn execute_c15(plan: &Plan) -> Outcome {
     // quinn-proto 0.11 does not even send while the congestion window is full of unacknowledged stream data; the peer then
     // notices at its 30 s idle timeout. That bound is a property of the transport: the end must be seen within it.
     let quic = plan.config.transport == Transport::Quic;
-    let slack_ns = if quic { 40_000_000_000u64 } else { 10_000_000_000u64 } + 8 * (plan.knobs.latency_us + plan.knobs.jitter_us) * 1000;
+    // (on a lossy datagram link the idle timer is re-armed by the survivor's own probes and the closing period is stretched by
+    // backed-off probe time-outs: 49 s were seen on the unchanged tree - quinn's clocks, not the relay's)
+    let slack_ns = if quic && plan.knobs.dgram_loss_pm > 0 { 75_000_000_000u64 } else if quic { 40_000_000_000u64 } else { 10_000_000_000u64 } + 8 * (plan.knobs.latency_us + plan.knobs.jitter_us) * 1000;
     if let Some(e) = &run.startup_err {
         v.push(Violation::new("C15", format!("C15/startup/{cell}"), e.clone()));
     } else {
@@ -271,6 +288,7 @@ pub fn execute_c15(plan: &Plan) -> Outcome {
         *probes.entry(format!("ending_{}", kind_of(f, link_cut))).or_insert(0) += 1;
     }
     probes.insert("link_cuts_fired".to_owned(), pobs.cut_ns.len() as u64);
+    probes.insert("abandoned_local_handshakes".to_owned(), plan.extra.get("abandoned_handshakes").and_then(|v| v.as_array()).map(|a| a.len() as u64).unwrap_or(0));
     probes.insert("runs_timed_out".to_owned(), run.timed_out as u64);
     Outcome {
         violations: v,
